@@ -36,6 +36,13 @@ def create_dzn_elements(cfg: Configuration, fct: ast.FileContents,
     port_names = ast_view.portnames_t(encapsulee.ports)
     all_ports = cfg.ports_cfg.match(port_names.provides, port_names.requires)
 
+    def semantics_of(port_name: str) -> RuntimeSemantics:
+        """Get the configured runtime semantics of an exposed port, that must be present."""
+        if port_name not in all_ports.value:
+            raise AdvShellError(f'Port "{port_name}" is left without runtime semantics (STS/MTS) '
+                                'by the ports configuration')
+        return all_ports.value[port_name]
+
     provides_ports = []
     requires_ports = []
     for port in encapsulee.ports.elements:
@@ -45,10 +52,10 @@ def create_dzn_elements(cfg: Configuration, fct: ast.FileContents,
         if port.direction == ast.PortDirection.PROVIDES:
             # check multi client configuration for this port
             mc_fixture = check_multiclient_cfg(cfg.ports_cfg.multiclient, port.name, itf, fct)
-            provides_ports.append(DznPortItf(port, itf, all_ports.value[port.name], mc_fixture))
+            provides_ports.append(DznPortItf(port, itf, semantics_of(port.name), mc_fixture))
         else:
             if not port.injected.value:  # filter out injected required ports
-                requires_ports.append(DznPortItf(port, itf, all_ports.value[port.name]))
+                requires_ports.append(DznPortItf(port, itf, semantics_of(port.name)))
 
     # post check whether a multiclient port configuration has actually been matched
     if cfg.ports_cfg.multiclient:
